@@ -173,6 +173,55 @@ theorem eat_lt (prime h : Nat) (bytes : List Nat) (hh : h < two64) : eat prime h
 theorem eat_append (prime h : Nat) (a b : List Nat) : eat prime h (a ++ b) = eat prime (eat prime h a) b := by
   unfold eat; rw [List.foldl_append]
 
+theorem lookup_filter_ne {γ : Type} (name n : List Nat) (h : n ≠ name) (l : List (List Nat × γ)) :
+    (l.filter (fun p => p.1 != n)).lookup name = l.lookup name := by
+  induction l with
+  | nil => rfl
+  | cons p l ih =>
+    obtain ⟨k, g⟩ := p
+    by_cases hk : k = n
+    · subst hk
+      have : (name == k) = false := by simpa using fun e => h e.symm
+      simp [List.filter, List.lookup, this, ih]
+    · have hne : (k != n) = true := by simpa using hk
+      simp only [List.filter, hne, List.lookup]
+      split <;> simp_all
+
+theorem rngOf_withRng_same {γ α : Type} (o p : Nat) (mk : Nat → γ) (t : Table γ) (name : List Nat)
+    (f : γ → γ × α) :
+    (t.withRng o p mk name f).1.rngOf o p mk name = (f (t.rngOf o p mk name)).1 ∧
+    (t.withRng o p mk name f).1.base = t.base := by
+  simp [Table.withRng, Table.rngOf, List.lookup]
+
+theorem rngOf_withRng_other {γ α : Type} (o p : Nat) (mk : Nat → γ) (t : Table γ) (name n : List Nat)
+    (h : n ≠ name) (f : γ → γ × α) :
+    (t.withRng o p mk n f).1.rngOf o p mk name = t.rngOf o p mk name ∧
+    (t.withRng o p mk n f).1.base = t.base := by
+  have hb : (name == n) = false := by simpa using fun e => h e.symm
+  simp [Table.withRng, Table.rngOf, List.lookup, hb, lookup_filter_ne name n h]
+
+/-- The values drawn on `name` during any run are those of the handle's own generator. -/
+theorem run_stream {γ ρ α : Type} (o p : Nat) (mk : Nat → γ) (draw : ρ → γ → γ × α) (name : List Nat) :
+    ∀ (ops : List (List Nat × ρ)) (t : Table γ),
+      ((Table.run o p mk draw t ops).filter (fun x => x.1 == name)).map (·.2) =
+        drawAll draw (t.rngOf o p mk name) ((ops.filter (fun x => x.1 == name)).map (·.2)) := by
+  intro ops
+  induction ops with
+  | nil => intro t; rfl
+  | cons op rest ih =>
+    intro t
+    obtain ⟨n, req⟩ := op
+    by_cases hn : n = name
+    · subst hn
+      have h := rngOf_withRng_same o p mk t n (draw req)
+      simp only [Table.run, List.filter, beq_self_eq_true, List.map_cons, drawAll]
+      rw [ih, h.1]
+      simp [Table.withRng]
+    · have h := rngOf_withRng_other o p mk t name n hn (draw req)
+      have hb : (n == name) = false := by simpa using hn
+      simp only [Table.run, List.filter, hb]
+      rw [ih, h.1]
+
 end VerylModel.Random
 
 namespace VerylModel.Sched
